@@ -16,7 +16,9 @@ Ev == {"AttS1", "AttR2", "AttDup", "Refuse4", "DetS1", "CloseS1", "DropS1", "Clo
        "Beg2", "AttS3", "Send3", "End1", "End1err", "PEnd1", "PEnd1err", "End2", "SendEnd1", "PDetS1idle", "SendQEndErr1", "DropEndErr1",
        "PDetS1close", "PDetS1drop",
        \* after the first session has ended the peer answers a new session on the same channel number (3): its frames belong to the new session
-       "Beg3", "AttS5", "Send5"}
+       "Beg3", "AttS5", "Send5",
+       \* a delivery arrives on the receiving link and is never read; the peer answers a local end with an error
+       "In2", "End1PErr"}
 ClientOnly == {"AttDup", "Refuse4"}
 Enabled(e) ==
   (Side = "client" \/ e \notin ClientOnly) /\
@@ -25,7 +27,7 @@ Enabled(e) ==
     [] e = "AttDup" -> ~ended1 /\ "L1" \in att /\ "L1" \notin pdet
     [] e = "Refuse4" -> ~ended1
     [] e \in {"DetS1", "CloseS1", "DropS1", "PDetS1err", "PDetS1nc", "PDetS1idle", "PDetS1close", "PDetS1drop", "Send1", "SendDrop1", "SendDet1"} -> ~ended1 /\ "L1" \in att /\ "L1" \notin pdet
-    [] e \in {"CloseR2", "PCloseR2"} -> ~ended1 /\ "L2" \in att /\ "L2" \notin pdet
+    [] e \in {"CloseR2", "PCloseR2", "In2"} -> ~ended1 /\ "L2" \in att /\ "L2" \notin pdet
     [] e = "Beg2" -> ~s2
     [] e = "Beg3" -> ended1 /\ ~s3
     [] e = "AttS5" -> s3 /\ "L5" \notin att
@@ -33,16 +35,16 @@ Enabled(e) ==
     [] e = "AttS3" -> s2 /\ "L3" \notin att
     [] e = "Send3" -> s2 /\ "L3" \in att
     [] e = "End2" -> s2
-    [] e \in {"End1", "End1err", "PEnd1", "PEnd1err"} -> ~ended1
+    [] e \in {"End1", "End1err", "PEnd1", "PEnd1err", "End1PErr"} -> ~ended1
     [] e \in {"SendEnd1", "SendQEndErr1", "DropEndErr1"} -> ~ended1 /\ "L1" \in att /\ "L1" \notin pdet
 Step(e) ==
   /\ Len(script) < Depth /\ Enabled(e) /\ script' = Append(script, e)
   /\ att' = CASE e = "AttS1" -> att \cup {"L1"} [] e = "AttR2" -> att \cup {"L2"} [] e = "AttS3" -> att \cup {"L3"} [] e = "AttS5" -> att \cup {"L5"}
               [] e \in {"DetS1", "CloseS1", "DropS1", "SendDrop1", "SendDet1", "PDetS1close", "PDetS1drop"} -> att \ {"L1"} [] e = "CloseR2" -> att \ {"L2"}
-              [] e \in {"End1", "End1err", "PEnd1", "PEnd1err", "SendEnd1", "SendQEndErr1", "DropEndErr1"} -> att \ {"L1", "L2"} [] e = "End2" -> att \ {"L3"} [] OTHER -> att
+              [] e \in {"End1", "End1err", "PEnd1", "PEnd1err", "End1PErr", "SendEnd1", "SendQEndErr1", "DropEndErr1"} -> att \ {"L1", "L2"} [] e = "End2" -> att \ {"L3"} [] OTHER -> att
   /\ s2' = IF e = "Beg2" THEN TRUE ELSE IF e = "End2" THEN FALSE ELSE s2
   /\ s3' = (s3 \/ e = "Beg3")
-  /\ ended1' = (ended1 \/ e \in {"End1", "End1err", "PEnd1", "PEnd1err", "SendEnd1", "SendQEndErr1", "DropEndErr1"})
+  /\ ended1' = (ended1 \/ e \in {"End1", "End1err", "PEnd1", "PEnd1err", "End1PErr", "SendEnd1", "SendQEndErr1", "DropEndErr1"})
   /\ pdet' = CASE e \in {"PDetS1err", "PDetS1nc", "PDetS1idle"} -> pdet \cup {"L1"} [] e = "PCloseR2" -> pdet \cup {"L2"} [] OTHER -> pdet
 Next == \E e \in Ev : Step(e)
 Spec == Init /\ [][Next]_vars
@@ -95,6 +97,8 @@ Conc(e, m) ==
     [] e = "AttS5" -> Att("L5", "s3", 3, H(9), TRUE, [snd |-> 2, rcv |-> 0, idc |-> 0], [credit |-> 10]) \o << Credit(3, 0, H(9)) >>
     [] e = "Send5" -> << Send("L5", m, FALSE) >>
     [] e = "End1" -> << [e |-> "AEnd", s |-> "s1"], [e |-> "PFrame", perf |-> "end", ch |-> 3, f |-> [err |-> ""]] >>
+    [] e = "End1PErr" -> << [e |-> "AEnd", s |-> "s1"], [e |-> "PFrame", perf |-> "end", ch |-> 3, f |-> [err |-> "x:ended"]] >>
+    [] e = "In2" -> << [e |-> "PFrame", perf |-> "transfer", ch |-> 3, f |-> [h |-> H(6), did |-> m, tagn |-> 1, tag |-> <<m % 250>>, fmt |-> 0, settled |-> "t", more |-> FALSE], msg |-> [m |-> 300 + m, len |-> 20, shape |-> "data"]] >>
     [] e = "End1err" -> << [e |-> "AEnd", s |-> "s1", err |-> "internal"], [e |-> "PFrame", perf |-> "end", ch |-> 3, f |-> [err |-> ""]] >>
     [] e = "SendEnd1" -> << Send("L1", m, FALSE), [e |-> "AEnd", s |-> "s1"], [e |-> "PFrame", perf |-> "end", ch |-> 3, f |-> [err |-> ""]] >>
     \* the peer closes the link and the application does not touch it: its handle and name stay taken until the endpoint has answered
